@@ -109,6 +109,8 @@ pub struct PeerStats {
     pub blind_rsts: u64,
     pub state_checks: u64,
     pub syns_with_data: u64,
+    pub coop_epilogues: u64,
+    pub coop_completed: u64,
 }
 
 pub struct PeerSim {
@@ -143,6 +145,11 @@ pub struct PeerSim {
     tw_entered: Option<Micros>,
     tw_last_touch: Micros,
     peer_acked_max: u32,
+    /// highest ACK number the peer ever put on a segment that the socket could have accepted
+    /// (up to everything queued, sent or not, plus the FIN): the socket may have advanced SND.UNA to it
+    peer_ack_sent_max: Option<u32>,
+    /// every distinct ACK number the peer ever sent (bounded list)
+    peer_acks_sent: Vec<u32>,
     pub smon: SenderMon,
     pub stats: PeerStats,
     pub violations: Vec<Tagged>,
@@ -274,6 +281,8 @@ impl PeerSim {
             tw_entered: None,
             tw_last_touch: now,
             peer_acked_max: 0,
+            peer_ack_sent_max: None,
+            peer_acks_sent: Vec::new(),
             smon,
             stats: PeerStats::default(),
             violations: Vec::new(),
@@ -542,6 +551,17 @@ impl PeerSim {
                 seg.seq = seq;
                 seg.flags = if rst { itcp::RST } else { 0 } | if fin { itcp::FIN } else { 0 } | if ack.is_some() { itcp::ACK } else { 0 } | if len > 0 { itcp::PSH } else { 0 };
                 seg.ack = ack.unwrap_or(0);
+                if let Some(a) = ack {
+                    if !self.peer_acks_sent.contains(&a) && self.peer_acks_sent.len() < 256 {
+                        self.peer_acks_sent.push(a);
+                    }
+                }
+                if let (Some(a), Some(iss)) = (ack, self.iss) {
+                    let hi = iss.wrapping_add(1).wrapping_add(self.written as u32).wrapping_add(1);
+                    if itcp::seq_le(iss.wrapping_add(1), a) && itcp::seq_le(a, hi) && self.peer_ack_sent_max.map_or(true, |m| itcp::seq_lt(m, a)) {
+                        self.peer_ack_sent_max = Some(a);
+                    }
+                }
                 seg.wnd = wnd;
                 if self.cfg.peer_ts {
                     seg.ts = Some(((self.now / 1000) as u32, 0));
@@ -572,6 +592,11 @@ impl PeerSim {
                 // an RST is "in window" if its sequence number lies in what the socket advertised
                 let rst_in_window = match (self.last_ack_emitted, self.last_edge_emitted) {
                     (Some(la), Some(le)) => {
+                        // right edge: the highest one ever advertised (an edge that moved left - the
+                        // ACK advanced by less than the window field shrank - does not take back
+                        // what was offered; the socket itself keeps judging by the older, larger one)
+                        let le_max = self.cfg.irs.wrapping_add(1).wrapping_add(self.edge_max_off.max(0) as u32);
+                        let le = if itcp::seq_lt(le, le_max) { le_max } else { le };
                         itcp::seq_le(la, seq) && (itcp::seq_lt(seq, le) || itcp::seq_le(seq, self.rcv_nxt_upper()))
                     }
                     // nothing acknowledged on the wire yet (SYN|ACK or first ACK still to be sent):
@@ -812,6 +837,134 @@ impl PeerSim {
         }
     }
 
+    // ------------------------------------------------------------ cooperative epilogue
+    /// After the hostile script: a *cooperative* peer.  It (re)sends its stream in order, inside the
+    /// window the socket advertises, acknowledging everything the socket sent, with PSH on every
+    /// data segment and FIN|PSH|ACK on the last one (as mainstream stacks do), over a reliable link,
+    /// while the application keeps reading.  Every safety oracle keeps running; in addition the
+    /// RFC 9293 edges for a valid in-order FIN must now be *taken*: the whole stream is delivered,
+    /// the FIN is acknowledged and the socket reaches a FIN-received state.
+    fn coop_epilogue(&mut self, rng: &mut Rng) {
+        let st = self.state();
+        if !matches!(st, State::Established | State::FinWait1 | State::FinWait2) || self.fin_arrived_entitled || self.aborted || self.iss.is_none() {
+            return;
+        }
+        self.stats.coop_epilogues += 1;
+        self.note("---- cooperative epilogue".into());
+        let irs1 = self.cfg.irs.wrapping_add(1);
+        let fin_at = self.cfg.fin_at as i64;
+        let mut done = false;
+        // The peer acknowledges cumulatively.  During the hostile script it may have acknowledged
+        // octets the socket had queued but not yet transmitted (the socket accepts that and advances
+        // SND.UNA), so "everything received" (snd_max) can lie below what it acknowledged before and
+        // the monitor cannot know which of those earlier numbers the socket took: the candidates are
+        // snd_max and every higher number the peer ever sent; a candidate that makes no progress for
+        // three rounds is replaced by the next one.
+        let mut cands: Vec<u32> = vec![self.snd_max];
+        let sm = self.snd_max;
+        let mut higher: Vec<u32> = self.peer_acks_sent.iter().copied().filter(|a| itcp::seq_lt(sm, *a) && itcp::seq_diff(*a, sm) < 200_000).collect();
+        higher.sort_by_key(|a| itcp::seq_diff(*a, sm));
+        cands.extend(higher);
+        let mut cand = 0usize;
+        let mut stalled = 0u32;
+        let mut last_seen = (self.last_ack_emitted, self.delivered);
+        let rounds = 400 + 3 * (self.cfg.fin_at as usize) + 4 * cands.len();
+        for _round in 0..rounds {
+            let seen = (self.last_ack_emitted, self.delivered);
+            if seen == last_seen {
+                stalled += 1;
+                if stalled >= 3 {
+                    stalled = 0;
+                    cand += 1;
+                }
+            } else {
+                stalled = 0;
+                last_seen = seen;
+            }
+            // the application keeps up with the peer (TIME-WAIT expiry discards unread data)
+            for _ in 0..200 {
+                let before = self.delivered;
+                self.api_recv(rng);
+                if self.delivered == before {
+                    break;
+                }
+            }
+            if self.violations.len() > 0 {
+                return;
+            }
+            let st = self.state();
+            if matches!(st, State::Closed | State::Listen) {
+                break;
+            }
+            let Some(la) = self.last_ack_emitted else {
+                self.time_and_egress(300_000);
+                continue;
+            };
+            let off = self.peer_off(la);
+            if off > fin_at {
+                done = true;
+                break;
+            }
+            let mut off = off.max(0);
+            let mut room = match self.last_edge_emitted {
+                Some(e) => itcp::seq_diff(e, la).max(0) as i64,
+                None => 0,
+            };
+            let mss = 536usize.min(self.cfg.mtu.saturating_sub(60)).max(1) as i64;
+            if room == 0 && fin_at - off > 0 {
+                // zero window: the application reads, the socket announces room again
+                self.time_and_egress(300_000);
+                continue;
+            }
+            // a window's worth of segments (at most 32), then the ACKs are collected
+            for _ in 0..32 {
+                let remaining = fin_at - off;
+                let len = remaining.min(room).min(mss).max(0);
+                if len == 0 && remaining > 0 {
+                    break;
+                }
+                let fin = off + len == fin_at;
+                let seq = irs1.wrapping_add(off as u32);
+                let ack = Some(cands[cand % cands.len()]);
+                self.inject(SegEvent::Data { seq, len: len as usize, fin, ack, wnd: 65535, rst: false, place: "coop", ackc: "snd.nxt" });
+                off += len;
+                room -= len;
+                if fin || !self.violations.is_empty() {
+                    break;
+                }
+            }
+            self.time_and_egress(300_000);
+        }
+        for _ in 0..400 {
+            let before = self.delivered;
+            self.api_recv(rng);
+            if self.delivered == before {
+                break;
+            }
+        }
+        self.api_recv(rng);
+        if !self.violations.is_empty() {
+            return;
+        }
+        let st = self.state();
+        let fin_state = matches!(st, State::CloseWait | State::LastAck | State::Closing | State::TimeWait | State::Closed);
+        let complete = done && self.delivered == self.cfg.fin_at && fin_state;
+        if complete {
+            self.stats.coop_completed += 1;
+        } else if !matches!(st, State::Listen) {
+            let (d, f, la) = (self.delivered, self.cfg.fin_at, self.last_ack_emitted);
+            let acked = la.map(|a| self.peer_off(a));
+            self.violate(
+                "C17",
+                format!("coop:valid-in-order-fin-not-taken:{}", st),
+                format!(
+                    "a cooperative peer sent its whole stream ({} octets) in order inside the advertised window, PSH on data and FIN|PSH|ACK at the end, acknowledging everything, over a reliable link (a window per round, for as many rounds as the stream has octets) while the application kept reading: delivered {} of {}, highest stream offset acknowledged {:?} (FIN would be {}), state {} - the RFC 9293 edge for a valid FIN was not taken",
+                    f, d, f, acked, f + 1, st
+                ),
+            );
+        }
+    }
+
     // ------------------------------------------------------------ segment generator
     fn gen_segment(&mut self, rng: &mut Rng) -> SegEvent {
         let st = self.state();
@@ -912,7 +1065,11 @@ impl PeerSim {
                 }
             }
         }
-        for _ in 0..self.cfg.steps {
+        // one run in six keeps the hostile script short, so that the cooperative epilogue starts
+        // from an open connection more often
+        let coop = rng.chance(1, 2);
+        let steps = if coop && rng.chance(1, 3) { self.cfg.steps.min(rng.urange(0, 15)) } else { self.cfg.steps };
+        for _ in 0..steps {
             self.stats.events += 1;
             let st = self.state();
             let r = rng.below(100);
@@ -960,6 +1117,9 @@ impl PeerSim {
             if itcp::seq_lt(self.cfg.irs.wrapping_add(1).wrapping_add(self.contig() as u32), self.cfg.irs) {
                 self.stats.wrap = true;
             }
+        }
+        if coop {
+            self.coop_epilogue(rng);
         }
         // drain: read everything that was delivered
         for _ in 0..8 {
